@@ -173,7 +173,13 @@ def run_shard(shard, ctx):
         for tempo in maps_:
             ctx.node()
             text = mk(sync=["0 = TS 4"] + ["%d = B %d" % tn for tn in tempo])
-            be = impl.parse(text).sync_track.bpm_events
+            try:
+                be = impl.parse(text).sync_track.bpm_events
+            except Exception as e:  # noqa: BLE001 - a well-formed tempo map that is rejected answers no query at all
+                ctx.case((tuple(tempo), "rejected"))
+                ctx.evaluations += 1
+                ctx.violation("table", dict(kind="table", tempo=[list(x) for x in tempo], tick=0, hint=0), "tempo map %r (well-formed) is rejected with %s: no tick of it can be looked up" % ([list(x) for x in tempo][:6], type(e).__name__))
+                continue
             tks = [t for t, _ in tempo]
             if shard[0] == "hugetable":  # very long maps: ticks around the beginning, powers of two, the middle and the end
                 n_ = len(tks)
@@ -238,7 +244,10 @@ def replay(case):
     if case.get("kind") == "table":
         tempo = [tuple(x) for x in case["tempo"]]
         text = mk(sync=["0 = TS 4"] + ["%d = B %d" % tn for tn in tempo])
-        be = impl.parse(text).sync_track.bpm_events
+        try:
+            be = impl.parse(text).sync_track.bpm_events
+        except Exception as e:  # noqa: BLE001
+            return [dict(key="table", msg="still fails: the well-formed tempo map is rejected with %s" % type(e).__name__, case=case)]
         tick, hint = case["tick"], case["hint"]
         gov = max(i for i, (t, _) in enumerate(tempo) if t <= tick)
         try:
